@@ -57,33 +57,7 @@ func remoteWriteParam(fn *ssa.Function) *ssa.Parameter {
 // reachableUnder: can target be reached from the entry when the conditions
 // identified by atom() are fixed and all others are free?
 func reachableUnder(fn *ssa.Function, target ssa.Instruction, atom func(cond ssa.Value) (known bool, val bool)) bool {
-	seen := map[*ssa.BasicBlock]bool{}
-	var dfs func(b *ssa.BasicBlock) bool
-	dfs = func(b *ssa.BasicBlock) bool {
-		if b == target.Block() {
-			return true
-		}
-		if seen[b] {
-			return false
-		}
-		seen[b] = true
-		if ifi, ok := b.Instrs[len(b.Instrs)-1].(*ssa.If); ok {
-			c, pol := normCond(ifi.Cond, true)
-			if known, val := atom(c); known {
-				if val == pol {
-					return dfs(b.Succs[0])
-				}
-				return dfs(b.Succs[1])
-			}
-		}
-		for _, s := range b.Succs {
-			if dfs(s) {
-				return true
-			}
-		}
-		return false
-	}
-	return dfs(fn.Blocks[0])
+	return reachableUnderPhi(fn, target, atom)
 }
 
 func checkC04(p *Prog, r *Report) {
@@ -314,6 +288,7 @@ func checkC04(p *Prog, r *Report) {
 	r.Floor("R4", "reflective mutators applied by the engine", len(seenMut), 2)
 	c04FlagRetention(p, o, r)
 	engineFailureRule(p, r, "R9")
+	mergeTruthTable(p, r, "R10")
 	r.Rule("R6", "every per-type UpdateList assigns the merged list to the stored object only under success && persist and returns the engine's outcome (sibling template C02-R1): a rejected remote write is never persisted")
 	tb := BuildTables(p)
 	for _, nt := range tb.Updaters {
